@@ -64,6 +64,18 @@ def issueJson (i : Issue) : Json :=
   jobj [("kind", jstr i.kind.name), ("code", jstr i.code), ("sev", jnat i.sev), ("span", pairJson i.span),
         ("sub", pairJson i.sub), ("chr", jopt jnat i.chr), ("txt", jopt jcps i.txt)]
 
+def valueJson : DelayVal → Json
+  | .value d => jobj [("v", C11.decJson d)]
+  | .absent => Json.str "absent"
+  | .raises => Json.str "raises"
+  | .unsure => Json.str "unsure"
+
+/-- `Validate.delayItems` for texts that hold `delay/` (what `split_delay_tags` looks at) -/
+def itemsJson (env : Env) (text : Str) : Json :=
+  if (findSub (fold text) (fold Generated.CodeMap.delayKey ++ ['/'])).isSome then
+    jarr ((delayItems env text).map fun (s, d) => jobj [("str", jcps s), ("delay", jopt valueJson d)])
+  else Json.null
+
 def caseJson (env : Env) (j : Json) : Except String Json := do
   let text ← getStr j "text"
   let ph ← getBool j "ph"
@@ -71,6 +83,9 @@ def caseJson (env : Env) (j : Json) : Except String Json := do
   pure (jobj [("issues", jarr ((validateP env ph text p).map issueJson)),
               ("raises", jbool (raisesP env ph text p)),
               ("unmodelled", jbool (unmodelledP env p)),
+              ("why", match unmodelledWhy env p with | some w => Json.str w | none => Json.null),
+              ("unmodelled_old", jbool (unmodelledOldP env p)),
+              ("items", itemsJson env text),
               -- the hypothesis `LookupStable` of `C01.issue_indices_in_tag`, evaluated on this text
               ("stable", jbool ((tagsList p.root0).all fun t => !t.entry.isSome ||
                 ((canon env t).2.isEmpty && decide ((canon env t).1.extVal.length ≤ t.extVal.length)))),
